@@ -11,7 +11,7 @@ for f in ("patch.diff", "demo.diff", "README.md"):
 meta = {
     "property": pid, "name": name, "breaks": pid, "round": int(rnd),
     "needs_to_manifest": needs,
-    "origin": "independent sub-agent given only the property text (plus the requirement that the change hinge on a boundary, pagination / key order, a cross-contract interaction, leftover state, or one account in two roles) and a scratch worktree",
+    "origin": "independent sub-agent given only the property text (plus a round-specific requirement: round 4 - hinge on a boundary, pagination / key order, a cross-contract interaction, leftover state or one account in two roles; round 5 - be hard for a randomised tester: magnitude, exact numeric coincidence, ordering of four or more operations, configuration corner, or error path) and a scratch worktree",
     "verified": {
         "suite_with_patch": "cargo test --workspace --offline: 142 passed",
         "demo_with_patch": f"cargo test {demo}: fails",
